@@ -47,8 +47,22 @@ def programs(rng, n):
     return out
 
 
-def record(job, rec, cache=None, eh="continue"):
-    o, rt, r = predict.try_real(job, event_processors=[rec], cache=cache, error_handling=eh)
+def sibling_graph_programs():
+    """Two or three nested graphs that become ready in the same superstep (their runs overlap under
+    the async runner), optionally a third one downstream."""
+    out = []
+    for n in (2, 3):
+        nodes = []
+        for i in range(n):
+            inner = IR.prog(f"g{i}", [IR.func(f"I{i}a", ["x"], [f"u{i}"], is_async=True), IR.func(f"I{i}b", [f"u{i}"], [f"v{i}"], is_async=True)], max_iter=1000)
+            nodes.append(IR.graph_node(inner, name=f"node_{i}", inputs=["x"], outputs=[f"u{i}", f"v{i}"]))
+        nodes.append(IR.func("J", [f"v{i}" for i in range(n)], ["j"]))
+        out.append((IR.prog("top", nodes), [["x", "in.x"]], f"siblings{n}"))
+    return out
+
+
+def record(job, rec, cache=None, eh="continue", om=None):
+    o, rt, r = predict.try_real(job, event_processors=[rec], cache=cache, error_handling=eh, on_missing=om)
     if "rejected" in o:
         return None
     status = "failed" if o["status"] in ("failed", "raised") else o["status"]
@@ -83,6 +97,37 @@ def run(tier, seed):
                 eh = rng.choice(["continue", "raise"])
                 j = gen.job(0, sched.asyncify(p2) if mode == "async" and rng.random() < 0.5 else p2, prov, mode=mode)
                 add(record(j, rec, eh=eh), f"{kind}/fail={fp}/{mode}/{type(rec).__name__}/{eh}", j)
+    # 1b. sibling nested graphs in one superstep, suspending processors
+    for prog, prov, kind in sibling_graph_programs():
+        for rep in range(4 if thorough else 2):
+            for y in (1, 2, 3):
+                add(record(gen.job(0, prog, prov, mode="async"), events.AsyncRecorder(yields=y)), f"{kind}/async/yields{y}")
+        add(record(gen.job(0, prog, prov, mode="sync"), events.Recorder()), f"{kind}/sync")
+    # 1c. a selected output that is never produced, with on_missing=error / warn (the run fails while every node succeeded)
+    for dopen in (False, True):
+        g = IR.route("G", ["x"], ["A", "B"], [["A"]], default_open=dopen)
+        prog = IR.prog("top", [g, IR.func("A", ["x"], ["a"]), IR.func("B", ["x"], ["b"])])
+        for mode in ("sync", "async"):
+            for om in ("error", "warn", "ignore"):
+                for eh in ("raise", "continue"):
+                    j = gen.job(0, prog, [["x", "in.x"]], mode=mode, select=["b"])
+                    rec = events.Recorder() if mode == "sync" else events.AsyncRecorder()
+                    add(record(j, rec, eh=eh, om=om), f"missing-selected/{mode}/{om}/{eh}/open{dopen}")
+    # 1d. runner.map worker pool with controlled completion orders (a failing item while siblings are in flight)
+    for n, k, fails, raise_ in c10.pool_configs(False):
+        if k == 0 and not thorough:
+            continue
+        items = c10.item_names("x", n)
+        prog = IR.prog("top", [IR.func("F", ["x"], ["p"], is_async=True, fail_args=[items[i - 1] for i in fails])])
+        j = gen.job(0, prog, [["x", c10.list_text(items)]], mode="async", lists=[[c10.list_text(items), items]])
+        j["map"] = {"over": ["x"], "mode": "zip", "eh": "raise" if raise_ else "continue"}
+        orders = [list(range(1, n + 1)), list(range(n, 0, -1))] + ([[2, 1, 3][:n]] if n == 3 else [])
+        for od in orders:
+            rec = events.AsyncRecorder(yields=rng.choice([1, 2]))
+            o, rt2, ctl = c10.real_map(j, k=k, schedule=[f"F@{items[i - 1]}" for i in od], event_processors=[rec])
+            if o.get("deadlock"):
+                continue
+            add({"status": "failed" if "raised" in o else "completed", "events": rec.events, "graphnodes": []}, f"pool/n{n}/k{k}/fail{fails}/{'raise' if raise_ else 'continue'}/{od}")
     # 2. cached nodes: a second run on a shared cache emits CacheHit inside the node span
     for prog, prov, kind in programs(rng, 60 if thorough else 20):
         p2 = copy.deepcopy(prog)
